@@ -8,29 +8,66 @@ Local Open Scope Z_scope.
 (** a binary32 argument / result *)
 Inductive fnum := FNan | FInf (neg : bool) | FVal (q : Q).
 
+(** IEEE special cases around the rounded operations (signed zeros are not
+    distinguished: no model below divides by a zero of unknown sign) *)
+Definition is_zero (x : fnum) : bool := match x with FVal q => Qeq_bool q 0 | _ => false end.
+Definition fn_neg (x : fnum) : bool := match x with FVal q => Qltb q 0 | FInf n => n | FNan => false end.
+Definition fn_add (a b : fnum) : fnum :=
+  match a, b with
+  | FNan, _ | _, FNan => FNan
+  | FVal x, FVal y => FVal (fadd x y)
+  | FInf n, FInf m => if Bool.eqb n m then FInf n else FNan
+  | FInf n, _ | _, FInf n => FInf n
+  end.
+Definition fn_opp (a : fnum) : fnum :=
+  match a with FNan => FNan | FInf n => FInf (negb n) | FVal x => FVal (Qred (- x)) end.
+Definition fn_sub (a b : fnum) : fnum := fn_add a (fn_opp b).
+Definition fn_mul (a b : fnum) : fnum :=
+  match a, b with
+  | FNan, _ | _, FNan => FNan
+  | FVal x, FVal y => FVal (fmul x y)
+  | FInf n, o | o, FInf n => if is_zero o then FNan else FInf (xorb n (fn_neg o))
+  end.
+Definition fn_div (a b : fnum) : fnum :=
+  match a, b with
+  | FNan, _ | _, FNan => FNan
+  | FInf _, FInf _ => FNan
+  | FInf n, o => FInf (xorb n (fn_neg o))
+  | FVal _, FInf _ => FVal 0
+  | FVal x, FVal y => if Qeq_bool y 0 then (if Qeq_bool x 0 then FNan else FInf (Qltb x 0)) else FVal (fdiv x y)
+  end.
+Definition fn_sqrt (a : fnum) : fnum :=
+  match a with
+  | FNan => FNan
+  | FInf n => if n then FNan else FInf false
+  | FVal x => if Qltb x 0 then FNan else FVal (fsqrt x)
+  end.
+(** a >= b (false when either is NaN) *)
+Definition fn_ge (a b : fnum) : bool :=
+  match a, b with
+  | FNan, _ | _, FNan => false
+  | FInf n, FInf m => orb (negb n) m
+  | FInf n, _ => negb n
+  | _, FInf m => m
+  | FVal x, FVal y => Qle_bool y x
+  end.
+
 (** sb_get_travel_time_for_distance(distance, speed, acceleration) *)
 Definition travel_time (distance speed acceleration : fnum) : fnum :=
   let lt0 x := match x with FVal q => Qltb q 0 | FInf n => n | FNan => false end in
   let le0 x := match x with FVal q => Qle_bool q 0 | FInf n => n | FNan => false end in
-  (* if (distance < 0 || speed <= 0 || acceleration <= 0) return INFINITY; *)
-  if lt0 distance || le0 speed || le0 acceleration then FInf false else
-  match distance, speed, acceleration with
-  | FNan, _, _ | _, FNan, _ | _, _, FNan => FNan      (* NaN propagates through the arithmetic *)
-  | FVal d, FVal v, FInf false =>
-    if Qeq_bool d 0 then FVal 0 else FVal (fdiv d v)
-  | FVal d, FVal v, FVal a =>
-    if Qeq_bool d 0 then FVal 0 else
-    let t1 := fdiv v a in
-    let s1 := fmul (fmul (fdiv a 2) t1) t1 in
-    if Qle_bool (fmul 2 s1) d
-    then FVal (fadd (fmul 2 t1) (fdiv (fsub d (fmul 2 s1)) v))
-    else FVal (fadd (fmul 2 (fsqrt (fdiv d a))) 0)
-  | FInf false, FVal v, _ => FInf false               (* infinite distance: infinite time *)
-  | FVal d, FInf false, FVal a =>
-    (* infinite speed limit: t1 = inf, s1 = inf: triangular profile *)
-    if Qeq_bool d 0 then FVal 0 else FVal (fadd (fmul 2 (fsqrt (fdiv d a))) 0)
-  | _, _, _ => FNan
-  end.
+  let two := FVal (inject_Z 2) in
+  if lt0 distance || le0 speed || le0 acceleration then FInf false
+  else if is_zero distance then FVal 0
+  else match acceleration with
+       | FInf false => fn_div distance speed
+       | _ =>
+         let t1 := fn_div speed acceleration in
+         let s1 := fn_mul (fn_mul (fn_div acceleration two) t1) t1 in
+         if fn_ge distance (fn_mul two s1)
+         then fn_add (fn_mul two t1) (fn_div (fn_sub distance (fn_mul two s1)) speed)
+         else fn_add (fn_mul two (fn_sqrt (fn_div distance acceleration))) (FVal 0)
+       end.
 
 (** sb_i_scale_update(scale, x, y, z): new scale or SB_EOVERFLOW *)
 Definition scale_update (scale : Z) (x y z : Q) : res Z :=
